@@ -102,3 +102,49 @@ def register(prop, title):
     def s2(ctx, prop=prop, title=title):
         cross_wired_options(ctx, f'{prop}-S2', files_of(ctx, prop), title)
     return s1
+
+
+def memo_invalidation(ctx, rule_id, rel, cls_name, roots, mutator='_add_fragment', what=''):
+    """A method that answers from a saved result (`if self.X is not None: return self.X`) is only right while the object does not change: every such
+    saved field of the methods reachable from `roots` (through self.method() calls) is re-set by the mutator (the method through which fragments
+    join).  Returns the number of methods inspected."""
+    from ..util import reach_conds
+    from ..index import src
+    cls = ctx.ix.cls(rel, cls_name)
+    methods = {x.name: x for x in cls.body if isinstance(x, ast.FunctionDef)}
+    seen, todo = set(), list(roots)
+    while todo:
+        m = todo.pop()
+        if m in seen or m not in methods:
+            continue
+        seen.add(m)
+        for c in walk_no_nested(methods[m]):
+            if isinstance(c, ast.Call) and isinstance(c.func, ast.Attribute) and isinstance(c.func.value, ast.Name) and c.func.value.id == 'self':
+                todo.append(c.func.attr)
+    memo = {}
+    for name in sorted(seen):
+        m = methods[name]
+        for r in [x for x in walk_no_nested(m) if isinstance(x, ast.Return) and x.value is not None]:
+            attrs = {n.attr for n in ast.walk(r.value) if isinstance(n, ast.Attribute) and isinstance(n.value, ast.Name) and n.value.id == 'self'}
+            conds = reach_conds(m.body, r) or []
+            for a in attrs:
+                if any(f'self.{a}' in {src(n) for n in ast.walk(t)} for t, pol in conds):
+                    memo.setdefault(a, []).append((m, r))
+    mut = methods.get(mutator)
+    reset = set()
+    if mut is not None:
+        for st in walk_no_nested(mut):
+            if isinstance(st, (ast.Assign, ast.AugAssign, ast.Delete)):
+                for t in (st.targets if not isinstance(st, ast.AugAssign) else [st.target]):
+                    if isinstance(t, ast.Attribute) and isinstance(t.value, ast.Name) and t.value.id == 'self':
+                        reset.add(t.attr)
+    ctx.need(rule_id, len(seen), 1, f'methods reachable from {roots}')
+    bad = [(a, ms) for a, ms in memo.items() if a not in reset]
+    for a, ms in bad:
+        m, r = ms[0]
+        ctx.emit(rule_id, False, rel, r, f'{cls_name}.{m.name} answers from the saved `self.{a}` but {cls_name}.{mutator} does not reset it: after another fragment joins the molecule the '
+                 f'stale result of the smaller molecule is returned', key=f'saved-result-invalidated:{a}', what=f'{what}: saved result self.{a} is never invalidated')
+    if not bad:
+        ctx.emit(rule_id, True, rel, methods[sorted(seen)[0]], f'{len(seen)} methods reachable from {roots}: saved results {sorted(memo)} are all reset by {mutator}', key='saved-result-invalidated',
+                 nontrivial=bool(memo))
+    return len(seen)
